@@ -33,55 +33,106 @@ def check_filename(report):
     m = pm()
     fi = m.func("gapic.generator.generator.Generator._get_filename")
     fn, p = fi.node, fi.module.path
-    # order of the replace chain
-    reps = []
-    for n in ast.walk(fn):
-        if isinstance(n, ast.Call) and isinstance(n.func, ast.Attribute) and n.func.attr == "replace" and n.args and isinstance(n.args[0], ast.Constant):
-            reps.append((n.lineno, n.args[0].value, n))
-    reps.sort()
-    order = [x[1] for x in reps]
-    r1.instance({"replace_order": order})
-    r1.check(set(VARS) <= set(order), p, fn.lineno, f"placeholders replaced: {order}", "every filename variable must be substituted")
-    if "%name_%version" in order:
-        for shorter in ("%version", "%name"):
-            if shorter in order:
-                r1.check(order.index("%name_%version") < order.index(shorter), p, fn.lineno, f"order {order}",
-                         f"`%name_%version` must be substituted before `{shorter}` (otherwise `%name` eats part of the longer placeholder)")
-    sources = {}
-    for _, ph, n in reps:
-        sources[ph] = ast.unparse(n.args[1]).replace("\n", " ")
-    exp_src = {"%name_%version": "api_schema.naming.versioned_module_name", "%version": "api_schema.naming.version",
-               "%name": "api_schema.naming.module_name", "%sub": "'/'.join(api_schema.subpackage_view)",
-               "%service": "context['service'].module_name", "%proto": "context['proto'].module_name",
-               "%namespace": "os.path.sep.join((i.lower() for i in api_schema.naming.namespace))"}
-    for ph, e in exp_src.items():
-        r1.instance(f"{ph} <- {e}")
-        r1.check(sources.get(ph) == e, p, fn.lineno, f"{ph} <- {sources.get(ph)}", f"`{ph}` must be replaced by {e}")
-    src = ast.unparse(fn)
-    r1.check("re.sub('/+', '/', filename)" in src and ".lstrip(os.path.sep)" in src, p, fn.lineno, "separator normalisation",
-             "runs of `/` must be collapsed and a leading separator stripped")
-    # abstract evaluation: apply the extracted order to every template path with each variable empty / non-empty
+    # Decided on the decision table of the normal form: every outcome is a CHAIN of string operations on the template name, which is
+    # read off and interpreted abstractly (so a replace chain, a table-driven loop, hoisted regexes ... are all the same thing).
+    from ..pymodel import nreturn, decision_leaves
+    e = nreturn(m, fi)
+    r1.need(e is not None, "Generator._get_filename", "the function does not reduce to a decision table of string operations; the rule cannot judge it")
+
+    def chain(x):
+        """[(op, arg...)] innermost first, or None"""
+        if isinstance(x, ast.Call) and isinstance(x.func, ast.Attribute) and x.func.attr == "replace" and len(x.args) == 2 and isinstance(x.args[0], ast.Constant):
+            c = chain(x.func.value)
+            return None if c is None else c + [("replace", x.args[0].value, ast.unparse(x.args[1]))]
+        if isinstance(x, ast.Call) and isinstance(x.func, ast.Attribute) and x.func.attr == "lstrip" and len(x.args) == 1:
+            c = chain(x.func.value)
+            return None if c is None else c + [("lstrip", ast.unparse(x.args[0]))]
+        if isinstance(x, ast.Call) and ast.unparse(x.func) == "re.sub" and len(x.args) == 3 and all(isinstance(a_, ast.Constant) for a_ in x.args[:2]):
+            c = chain(x.args[2])
+            return None if c is None else c + [("resub", x.args[0].value, x.args[1].value)]
+        if isinstance(x, ast.Call) and isinstance(x.func, ast.Attribute) and x.func.attr == "sub" and isinstance(x.func.value, ast.Call) \
+                and ast.unparse(x.func.value.func) == "re.compile" and len(x.args) == 2 and isinstance(x.func.value.args[0], ast.Constant) \
+                and isinstance(x.args[0], ast.Constant):
+            c = chain(x.args[1])
+            return None if c is None else c + [("resub", x.func.value.args[0].value, x.args[0].value)]
+        if ast.unparse(x) in ("template_name[:-len('.j2')]", "template_name[:-3]"):
+            return [("base",)]
+        return None
+
+    leaves = []
+    for conds, v in decision_leaves(e):
+        c = chain(v)
+        r1.need(c is not None, "_get_filename outcome", f"not a chain of replace / lstrip / re.sub on the template name: {ast.unparse(v)[:120]}")
+        leaves.append((dict(conds), c))
+    SRC_VALUE = {   # source expression of a replacement -> (placeholder it must serve, abstract value key)
+        "api_schema.naming.versioned_module_name": "%name_%version", "api_schema.naming.version": "%version", "api_schema.naming.module_name": "%name",
+        "'/'.join(api_schema.subpackage_view)": "%sub", "context['service'].module_name": "%service", "context['proto'].module_name": "%proto",
+        "os.path.sep.join((_c1.lower() for _c1 in api_schema.naming.namespace))": "%namespace",
+    }
+
+    def leaf_for(has_service: bool, has_proto: bool):
+        for conds, c in leaves:
+            ok = True
+            for k, v in conds.items():
+                if k == "context":
+                    ok = ok and (v == (has_service or has_proto))
+                elif k == "'service' in context":
+                    ok = ok and v == has_service
+                elif k == "'proto' in context":
+                    ok = ok and v == has_proto
+                elif k.startswith("OR(") or k.startswith("AND("):
+                    # not (context and 'x' in context): holds when the key is absent
+                    key = "service" if "'service'" in k else "proto"
+                    ok = ok and not (has_service if key == "service" else has_proto)
+                else:
+                    r1.need(False, "_get_filename condition", f"unexpected condition {k!r}")
+            if ok:
+                return c
+        return None
+    always = ["%namespace", "%name_%version", "%version", "%name", "%sub"]
+    for hs, hp, extra in ((False, False, []), (True, False, ["%service"]), (False, True, ["%proto"])):
+        c = leaf_for(hs, hp)
+        r1.need(c is not None, f"_get_filename outcome for service={hs} proto={hp}")
+        order = [op[1] for op in c if op[0] == "replace"]
+        r1.instance({"service": hs, "proto": hp, "replace_order": order})
+        r1.check(set(always + extra) <= set(order), p, fn.lineno, f"placeholders replaced: {order}", "every filename variable must be substituted")
+        if "%name_%version" in order:
+            for shorter in ("%version", "%name"):
+                if shorter in order:
+                    r1.check(order.index("%name_%version") < order.index(shorter), p, fn.lineno, f"order {order}",
+                             f"`%name_%version` must be substituted before `{shorter}` (otherwise `%name` eats part of the longer placeholder)")
+        for op in c:
+            if op[0] == "replace":
+                r1.check(SRC_VALUE.get(op[2]) == op[1], p, fn.lineno, f"{op[1]} <- {op[2]}",
+                         f"`{op[1]}` must be replaced by {[k for k, v in SRC_VALUE.items() if v == op[1]] or ['?']}")
+        r1.check(("resub", "/+", "/") in c and ("lstrip", "os.path.sep") in c, p, fn.lineno, "separator normalisation",
+                 "runs of `/` must be collapsed and a leading separator stripped")
+    # abstract evaluation: interpret the chain on every template path with each variable empty / non-empty
     import re as _re
     for root in (core.TEMPLATES, core.ADS_TEMPLATES):
         ts = TemplateSet(root)
         for name in ts.public_names():
             present = [v for v in ("%namespace", "%version", "%sub") if v in name]
+            c = leaf_for("%service" in name, "%proto" in name and "%service" not in name)
             for combo in itertools.product((False, True), repeat=len(present)):
                 val = {"%namespace": "ns1/ns2", "%version": "v1", "%name": "lib", "%sub": "sub", "%service": "svc", "%proto": "pfile"}
                 for v, on in zip(present, combo):
                     if not on:
                         val[v] = ""
                 val["%name_%version"] = "lib" + ("_" + val["%version"] if val["%version"] else "")
-                out = name[: -len(".j2")]
-                # same operations as the function: namespace first with lstrip, then the chain in source order
-                for ph in order:
-                    out = out.replace(ph, val.get(ph, ""))
-                    if ph == "%namespace":
+                out = name
+                for op in c:
+                    if op[0] == "base":
+                        out = out[: -len(".j2")]
+                    elif op[0] == "replace":
+                        out = out.replace(op[1], val.get(SRC_VALUE.get(op[2], ""), ""))
+                    elif op[0] == "lstrip":
                         out = out.lstrip("/")
-                out = _re.sub(r"/+", "/", out)
+                    elif op[0] == "resub":
+                        out = _re.sub(op[1], op[2], out)
                 segs = out.split("/")
                 r1.instance()
-                ok = not out.startswith("/") and all(s not in ("", ".", "..") for s in segs) and "%" not in out
+                ok = not out.startswith("/") and all(s_ not in ("", ".", "..") for s_ in segs) and "%" not in out
                 r1.check(ok, ts.path(name), 0, f"{name} with {dict(zip(present, combo))} -> {out}",
                          "emitted file name is not a normalised relative path (empty, `.`/`..` segment, absolute, or an unreplaced placeholder)")
 
@@ -92,29 +143,29 @@ def check_get_response(report):
     m = pm()
     gr = m.func("gapic.generator.generator.Generator.get_response")
     fn, p = gr.node, gr.module.path
-    loops = [n for n in fn.body if isinstance(n, ast.For) and "client_templates" in ast.unparse(n.iter)]
-    r2.need(len(loops) == 1, "for template_name in client_templates")
+    from ..pymodel import nfunc, find_match_ast
+    from ..pynorm import norm_expr
+    nf = nfunc(m, gr, keep={"_render_template"})
+    loops = [n for n in nf.body if isinstance(n, ast.For) and "client_templates" in ast.unparse(n.iter)]
+    r2.need(len(loops) == 1 and isinstance(loops[0].target, ast.Name), "for template_name in client_templates")
     lp = loops[0]
     TN = lp.target.id
-    skip = [s for s in lp.body if isinstance(s, ast.If) and any(isinstance(b, ast.Continue) for b in s.body)]
     r2.instance("private skip")
+    pat = norm_expr(ast.parse("_ANYF_.startswith('_') and _ANYF_ != '__init__.py.j2'", mode="eval").body)
     ok = False
-    if skip:
-        FN = None
-        for s in lp.body:
-            if isinstance(s, ast.Assign) and pmatch("_T_.split('/')[-1]", s.value, {"_T_": TN}) is not None:
-                FN = s.targets[0].id
-        ok = FN is not None and pmatch("_F_.startswith('_') and _F_ != '__init__.py.j2'", skip[0].test, {"_F_": FN}) is not None
-        render = [c for c in calls(lp) if ast.unparse(c.func) == "self._render_template"]
-        cfg = CFG(lp.body)
-        ok = ok and render and cfg.dominates(skip[0], cfg.node_of(render[0]))
-    r2.check(ok, p, lp.lineno, "underscore-prefixed template skip", "templates whose file name starts with `_` (except __init__.py.j2) must be skipped before rendering")
+    for i, st in enumerate(lp.body):
+        if isinstance(st, ast.If) and any(isinstance(b_, ast.Continue) for b_ in st.body):
+            node, bb = find_match_ast(pat, st.test)
+            if node is st.test and bb["_ANYF_"] == f"{TN}.split('/')[-1]":
+                later = [j for j, s2 in enumerate(lp.body) if any(isinstance(c, ast.Call) and ast.unparse(c.func) == "self._render_template" for c in ast.walk(s2))]
+                ok = bool(later) and all(j > i for j in later)
+    r2.check(ok, p, fn.lineno, "underscore-prefixed template skip", "templates whose file name starts with `_` (except __init__.py.j2) must be skipped before rendering")
     r2.instance("dict accumulation")
-    of = [n for n in fn.body if isinstance(n, (ast.Assign, ast.AnnAssign)) and ast.unparse(n.value) in ("OrderedDict()", "{}", "dict()", "collections.OrderedDict()")]
+    of = [n for n in fn.body if isinstance(n, (ast.Assign, ast.AnnAssign)) and n.value is not None and ast.unparse(n.value) in ("OrderedDict()", "{}", "dict()", "collections.OrderedDict()")]
     r2.check(len(of) >= 1, p, fn.lineno, "output_files = OrderedDict()", "files accumulate in a dict keyed by file name (uniqueness by construction)")
     OF = (of[0].target if isinstance(of[0], ast.AnnAssign) else of[0].targets[0]).id if of else "output_files"
-    ctor = [c for c in calls(fn) if ast.unparse(c.func) == "CodeGeneratorResponse"]
-    r2.check(len(ctor) == 1 and pmatch("[_I_ for _I_ in _OF_.values()]", ctor[0].keywords[0].value, {"_OF_": OF}) is not None, p, fn.lineno,
+    ctor = [c for c in ast.walk(nf) if isinstance(c, ast.Call) and ast.unparse(c.func) == "CodeGeneratorResponse"]
+    r2.check(len(ctor) == 1 and any(k.arg == "file" and ast.unparse(k.value) == f"list({OF}.values())" for k in ctor[0].keywords), p, fn.lineno,
              ast.unparse(ctor[0])[:100] if ctor else "", "the response must be built from the dict's values")
     # feature flag
     rets = [n for n in ast.walk(fn) if isinstance(n, ast.Return)]
@@ -238,14 +289,17 @@ def check_naming(report):
     m = pm()
     nb = m.func("gapic.schema.naming.Naming.build")
     fn, p = nb.node, nb.module.path
-    ver = [n for n in ast.walk(fn) if isinstance(n, ast.Assign) and isinstance(n.value, ast.Constant) and isinstance(n.value.value, str) and "(?P<version>" in n.value.value]
-    r5.need(len(ver) == 1, "version = r'...(?P<version>...)'")
-    pat = ver[0].value.value
-    r5.instance({"version_regex": pat})
-    r5.check(version_regex_ok(pat), p, ver[0].lineno, pat,
-             "the version segment must be v<n>, optionally followed by p<n>, optionally followed by alpha|beta and digits - the two optional "
-             "parts in sequence, so that v1p1beta1 is one version")
-    r5.check(pat.startswith("\\."), p, ver[0].lineno, pat, "the version is a whole dotted segment of the package")
+    from ..pymodel import nfunc
+    nf = nfunc(m, nb)
+    consts = sorted({c.value for c in ast.walk(nf) if isinstance(c, ast.Constant) and isinstance(c.value, str) and "(?P<version>" in c.value})
+    r5.need(consts, "a regex literal with (?P<version>...) used by Naming.build")
+    pats = sorted({c[c.index("(?P<version>") - 2:] if c.index("(?P<version>") >= 2 else c for c in consts})
+    for pat in pats:
+        r5.instance({"version_regex": pat})
+        r5.check(version_regex_ok(pat), p, fn.lineno, pat,
+                 "the version segment must be v<n>, optionally followed by p<n>, optionally followed by alpha|beta and digits - the two optional "
+                 "parts in sequence, so that v1p1beta1 is one version")
+        r5.check(pat.startswith("\\."), p, fn.lineno, pat, "the version is a whole dotted segment of the package")
     for cls, exp in (("NewNaming", "self.module_name + (f'_{self.version}' if self.version else '')"),
                      ("OldNaming", "self.module_name + (f'.{self.version}' if self.version else '')")):
         mem = m.func(f"gapic.schema.naming.{cls}.versioned_module_name")
@@ -254,7 +308,8 @@ def check_naming(report):
         r5.check(len(rets) == 1 and ast.unparse(rets[0].value) == exp, p, mem.node.lineno, ast.unparse(rets[0].value) if rets else "",
                  f"{cls}: <name>{'_' if cls == 'NewNaming' else '.'}<version>, or <name> alone when unversioned")
     # overrides after inference
-    infer = [n for n in fn.body if isinstance(n, ast.Assign) and isinstance(n.value, ast.Call) and ast.unparse(n.value.func) == "klass"]
+    infer = [n for n in fn.body if isinstance(n, ast.Assign) and isinstance(n.value, ast.Call)
+             and {"proto_package", "version"} <= {k_.arg for k_ in n.value.keywords}]
     ov = [n for n in fn.body if isinstance(n, ast.If) and ast.unparse(n.test) in ("opts.name", "opts.namespace")]
     r5.instance("CLI overrides")
     r5.check(len(infer) == 1 and len(ov) == 2 and all(fn.body.index(o) > fn.body.index(infer[0]) for o in ov)
